@@ -43,7 +43,7 @@ RULE = ("every MapSpec structure with <=2 inputs of rank<=3 (plus 3 inputs of to
         "(plain, scoped, mixed); per structure: 9 white-space renderings + 3 unusual ones; every single-edit mutation of a "
         "fixed operator list, as a string and by direct construction (quick: structures with <=5 input axes; thorough: also the "
         "two-input structures with 6); every tuple of input shapes with sizes 1..3 (quick: 1..2 for two outputs or 6 input "
-        "axes; thorough: 1..4 for <=2 inputs, one less for two outputs) incl. mismatching ones, plus one-axis rank edits; every "
+        "axes; thorough: 1..4 for <=2 inputs, one less for two outputs, 1..2 for three inputs with 6 axes) incl. mismatching ones, plus one-axis rank edits; every "
         "assignment of those sizes to the external indices x every linear index; renames of every non-empty subset of array "
         "names (+ swap, identity, unrelated and index-name keys); add_axes with 1-2 fresh names; every other injective naming of "
         "the indices into i,j,k,l on one generic size assignment. An evaluation is one call (or one output_key+input_keys pair "
@@ -55,7 +55,7 @@ ASSUMPTIONS = ["the reference grammar: spec := side '->' side; side := '...' | a
                "shape() is called with internal_shapes for every output name whenever the output has an internal index",
                "index-name symmetry: the heavy shape/index sweeps use index names canonical by first appearance; the 23 other "
                "injective namings are checked with one generic size assignment each"]
-BUDGET = {"quick": 75.0, "thorough": 840.0}
+BUDGET = {"quick": 90.0, "thorough": 900.0}
 
 NAMES = "ijkl"
 IN_NAMES = ("a", "b", "c")
@@ -233,8 +233,6 @@ def check_print_parse(spec):
         m2 = MapSpec.from_string(s)
         if not (m2 == m and struct(m2) == spec):
             out.append(({"kind": "value-mismatch", "check": "roundtrip", **f}, f"from_string(str(m)) != m for {render(spec)!r} (str = {s!r}, back = {m2!s})"))
-        if m.to_string() != s:
-            out.append(({"kind": "value-mismatch", "check": "to_string", **f}, f"to_string() != str() for {render(spec)!r}"))
     except Exception as e:  # noqa: BLE001
         out.append((_exc(e, check="roundtrip", **f), f"str/from_string round trip of {render(spec)!r} raised {e!r}"))
     for ws in WS_MUST:
@@ -752,11 +750,14 @@ def plan(tier, seed):
     return units
 
 
-def _sweep_sizes(tier, S, n_out, total_rank=0):
-    """size bound of the shape / key sweeps. quick: 1..2 for two-output specs (shape()/keys never look at the second
-    output) and for shape tuples of specs whose inputs have 6 axes in total; thorough: one less for two-output specs"""
+def _sweep_sizes(tier, S, n_out, shape_axes=0, n_in=0):
+    """size bound of the shape / key sweeps (shape_axes: total number of input axes, given by the shape stage only).
+    quick: 1..2 for two-output specs (shape()/keys never look at the second output) and for the shape tuples of specs with
+    6 input axes; thorough: one less for two-output specs, 1..2 for the shape tuples of three-input specs with 6 axes"""
     if tier == "quick":
-        return 2 if (n_out == 2 or total_rank >= 6) else S
+        return 2 if (n_out == 2 or shape_axes >= 6) else S
+    if n_in == 3 and shape_axes >= 6:
+        return 2
     return S - 1 if n_out == 2 else S
 
 
@@ -807,7 +808,7 @@ def run_unit(unit):  # noqa: C901, PLR0912, PLR0915
                             for via in ("string", "direct"):
                                 r = check_malformed(mut, via, mop, extras, cls)
                                 if r is None:
-                                    acc.stratum("mut:unconstrained(not-checked)")
+                                    acc.stratum("mut:still-well-formed-or-not-expressible(not-checked)")
                                     continue
                                 acc.case(key)
                                 acc.stratum(f"mut:{mop}")
@@ -826,7 +827,7 @@ def run_unit(unit):  # noqa: C901, PLR0912, PLR0915
                                     acc.outcome(f"unconstrained:{mop}:rejected:{type(e).__name__}")
             elif stage == "shape":
                 for n_out in (1, 2):
-                    _shape_sweep(acc, make_spec(ins, oax, n_out, 0), _sweep_sizes(tier, S, n_out, total_rank))
+                    _shape_sweep(acc, make_spec(ins, oax, n_out, 0), _sweep_sizes(tier, S, n_out, total_rank, len(ins)))
             elif stage == "keys":
                 for n_out in (1, 2):
                     spec = make_spec(ins, oax, n_out, 0)
